@@ -394,7 +394,54 @@ def r01_10(ctx: Ctx) -> None:
               "(ValueError: data must be padded), reachable with a volume size of 1 MiB + 5 on any archive ending in 7zAES", construct="aes short piece")
 
 
+def r01_11(ctx: Ctx) -> None:
+    """the hold-back of the branch-filter (BCJ) decoders: the libraries convert units of up to four bytes and flush what is left unconverted as
+    soon as fewer bytes than a unit are outstanding, so no piece may end inside the last unit.  BranchFilterDecoder.decompress (the base of all
+    five wrappers) therefore (a) puts the bytes held back by the previous call in front of the new piece, (b) while more data is outstanding
+    (`fed + len(data) < size`) splits the piece at `len(data) - keep` into what is decoded and what is held (keep = min(len, HOLD_BACK) > 0),
+    (c) counts what it hands to the decoder.  The suite has no member whose BCJ stage sees a piece boundary inside the last unit."""
+    c = ctx.prog.cls("BranchFilterDecoder", "compressor")
+    f = ctx.prog.method(c, "decompress")
+    ctx.need(f is not None, "BranchFilterDecoder.decompress vanished")
+    cfg = cfg_of(f.node)
+    dec = [x for x in q.calls(f) if attr_tail(x) == "decode"]
+    ctx.floor("R01.11", len(dec), 1, "decoder call in BranchFilterDecoder.decompress")
+    p0 = f.params[1]
+    pre = [n for n in walk(f.node) if isinstance(n, ast.Assign) and isinstance(n.value, ast.BinOp) and isinstance(n.value.op, ast.Add) and norm(n.value.left) == "self._held"
+           and any(isinstance(x, ast.Name) and x.id == p0 for x in ast.walk(n.value.right))]
+    ctx.check(bool(pre) and all(cfg.dominates(q.node_for(f, pre[0]), q.node_for(f, d)) for d in dec), "R01.11", f, pre[0] if pre else f.node,
+              "the bytes held back by the previous call come first", "BranchFilterDecoder.decompress does not put `self._held` in front of the new piece before decoding: the bytes "
+              "held back at the end of the previous piece are lost (or decoded out of order)", construct="held bytes not prepended")
+    splits = [n for n in walk(f.node) if isinstance(n, ast.Assign) and isinstance(n.targets[0], ast.Tuple) and len(n.targets[0].elts) == 2 and isinstance(n.value, ast.Tuple)
+              and any(norm(t) == "self._held" for t in n.targets[0].elts)]
+    ok = False
+    for n in splits:
+        tg = [norm(t) for t in n.targets[0].elts]
+        vals = list(n.value.elts)
+        hi = tg.index("self._held")
+        keep_v, held_v = vals[1 - hi], vals[hi]
+        cut = None
+        if isinstance(keep_v, ast.Subscript) and isinstance(keep_v.slice, ast.Slice) and keep_v.slice.lower is None and keep_v.slice.upper is not None \
+                and isinstance(held_v, ast.Subscript) and isinstance(held_v.slice, ast.Slice) and held_v.slice.upper is None and held_v.slice.lower is not None \
+                and norm(keep_v.slice.upper) == norm(held_v.slice.lower) and norm(keep_v.value) == norm(held_v.value):
+            cut = keep_v.slice.upper
+        outstanding = any(pol and isinstance(cd, ast.Compare) and isinstance(cd.ops[0], ast.Lt) and "_size" in norm(cd.comparators[0]) and "_fed" in norm(cd.left) for cd, pol in q.facts_at(f, n))
+        keeps = cut is not None and isinstance(cut, ast.BinOp) and isinstance(cut.op, ast.Sub) and norm(cut.left).startswith("len(") and any(
+            isinstance(v, ast.Call) and dotted(v.func) == "min" and any("HOLD_BACK" in norm(a_) for a_ in v.args) for v in ([cut.right] + list(q.assigned_values(f, norm(cut.right)))))
+        if cut is not None and outstanding and keeps and tg[1 - hi] == norm(dec[0].args[0]):
+            ok = True
+    ctx.check(ok, "R01.11", f, splits[0] if splits else f.node, "while data is outstanding the last unit of every piece is held back",
+              "BranchFilterDecoder.decompress does not split the piece into `data[:len - keep]` (decoded) and `data[len - keep:]` (held, keep = min(len, HOLD_BACK)) while "
+              "`fed + len(data) < size`: a piece that ends inside the last unit of the stream makes the library flush those bytes unconverted - members under a BCJ filter come "
+              "back with wrong bytes near the end (CrcError), depending on the block sizes", construct="hold-back split")
+    cnt = [n for n in walk(f.node) if isinstance(n, ast.AugAssign) and isinstance(n.op, ast.Add) and norm(n.target) == "self._fed" and dec and norm(n.value) == f"len({norm(dec[0].args[0])})"]
+    ctx.check(bool(cnt) and all(not cfg.reaches(q.node_for(f, n), q.node_for(f, s_)) for n in cnt for s_ in splits), "R01.11", f, cnt[0] if cnt else f.node,
+              "what goes to the decoder is counted (after the split)", "BranchFilterDecoder.decompress does not add the length of what it decodes to `_fed` (after the hold-back split): "
+              "the test 'more data is outstanding' is wrong from the second piece on", construct="fed count")
+
+
 def run(ctx: Ctx) -> None:
+    r01_11(ctx)
     r01_10(ctx)
     shared.layout_agreement(ctx, "R01.9")
     shared.exits_do_not_swallow(ctx, "R01.8")
